@@ -118,7 +118,22 @@ def entu_oracle(case, o):
 
 def gen_lmtd(rng):
     a = rng.choice([5.0, 10.0, 25.0, 0.5, 100.0, round(rng.uniform(0.1, 200), 3)])
-    k = rng.choice(["eq", "near", "gen", "gen", "gen", "nonpos"])
+    k = rng.choice(["eq", "near", "gen", "gen", "gen", "nonpos", "bothneg", "array"])
+    if k == "bothneg":
+        # both end differences non-positive (temperature cross at both ends): must be refused as well
+        return {"kind": "lmtd", "a": -a, "b": -rng.choice([a, 2 * a, 0.5, 20.0])}
+    if k == "array":
+        n = rng.randint(2, 5)
+        A = [rng.choice([5.0, 30.0, 12.0, 25.0]) for _ in range(n)]; B = [rng.choice([5.0, 30.0, 12.0, 25.0]) for _ in range(n)]
+        j = rng.randrange(n)
+        kind = rng.choice(["ok", "one", "both", "zero"])
+        if kind == "one":
+            A[j] = -A[j]
+        elif kind == "both":
+            A[j], B[j] = -A[j], -B[j]
+        elif kind == "zero":
+            B[j] = 0.0
+        return {"kind": "lmtd", "a": A, "b": B}
     if k == "eq":
         b = a
     elif k == "near":
@@ -142,9 +157,27 @@ def impl_lmtd(case):
         return f"err {type(e).__name__}", None
 
 
+def impl_lmtd_arr(case):
+    import numpy as np
+    from OpenPinch.utils.heat_exchanger import compute_LMTD_from_dts
+    try:
+        return [float(v) for v in np.atleast_1d(compute_LMTD_from_dts(case["a"], case["b"]))]
+    except ValueError:
+        return "refused"
+    except Exception as e:  # noqa: BLE001
+        return f"err {type(e).__name__}"
+
+
 def lmtd_oracle(case, res):
     a, b = case["a"], case["b"]
     fails = []
+    if isinstance(a, list):
+        pos = all(round(v, 6) > 0 for v in a + b)
+        if not pos and res != "refused":
+            fails.append(("lmtd_refuses_nonpositive", f"({a},{b}) -> {res}", None))
+        elif pos and (not isinstance(res, list) or any(not (min(p, q) - 1e-9 <= v <= (p + q) / 2 + 1e-9) for v, p, q in zip(res, a, b))):
+            fails.append(("lmtd_bounds", f"({a},{b}) -> {res}", None))
+        return fails
     x, y = res
     if min(a, b) <= 0:
         if x != "refused":
@@ -216,8 +249,8 @@ def run(ctx: Ctx):
                 ctx.traces_validated += 1
     lcases = [c for c in corpus if c["kind"] == "lmtd"] + [gen_lmtd(ctx.rng) for _ in range(ctx.n(800, 10000))]
     for c in lcases:
-        r = impl_lmtd(c)
-        ctx.count(c, isinstance(r[0], float), ["lmtd"])
+        r = impl_lmtd_arr(c) if isinstance(c["a"], list) else impl_lmtd(c)
+        ctx.count(c, isinstance(r, list) or isinstance(r[0], float), ["lmtd_array" if isinstance(c["a"], list) else "lmtd"])
         for clause, detail, cause in lmtd_oracle(c, r):
             ctx.oracle_fail(c, detail, cause, clause)
 
@@ -230,7 +263,7 @@ def replay(ctx: Ctx, payload: dict) -> int:
         o = impl_entu(case); print("impl:", o)
         fails = entu_oracle(case, o)
     else:
-        r = impl_lmtd(case); print("impl:", r)
+        r = impl_lmtd_arr(case) if isinstance(case["a"], list) else impl_lmtd(case); print("impl:", r)
         fails = lmtd_oracle(case, r)
     for f in fails:
         print("property fails:", f)
